@@ -140,7 +140,19 @@ def family():
         [{'t': 'RenameAppLabel', 'old': 'vapp', 'new': 'lib', 'legacy': None, 'models': ['Category', 'Item']}],
         [{'t': 'RenameAppLabel', 'old': 'vapp', 'new': 'lib', 'legacy': 'vapp', 'models': ['Item']}],
     ]
-    return [(spec, q) for q in seqs]
+    out = [(spec, q) for q in seqs]
+    # an app that used to carry the label `vapp` (legacy_app_label) listed BEFORE the app whose id is `vapp`:
+    # a label names the app with that id first, a legacy label only when no app has the id
+    import copy
+    spec_l = copy.deepcopy(spec)
+    spec_l['apps'].insert(0, {'id': 'myv', 'legacy': 'vapp', 'models': [
+        mdl('myv', 'Category', [fld('note', 'IntegerField', null=True)]),
+        mdl('myv', 'Item', [fld('cat', 'ForeignKey', 'myv.Category', null=True)])]})
+    for q in ([rm('Category', 'Section')], [rm('Item', 'Product')],
+              [{'t': 'DeleteField', 'model': 'Category', 'field': 'twin'}],
+              [{'t': 'DeleteModel', 'model': 'Item'}]):
+        out.append((spec_l, q))
+    return out
 
 
 def family_case(spec, seq):
